@@ -1,19 +1,35 @@
 #!/bin/sh
-# tools/run_seed.sh <seeded-dir>  : confirm the demo (fails with the change, passes without), run the property's check with the
-# change applied to /repo, undo the change. Prints one summary line.
+# tools/run_seed.sh <seeded-dir> [prop]  : confirm the demo (fails with the change, passes without), run the property's check
+#   default       : the change is applied to /repo's working tree (git apply) and undone afterwards (git checkout -- .)
+#   SEED_SCRATCH=1: the change is applied to a scratch copy of /repo/src (mktemp, removed afterwards) and the check reads that
+#                   copy (PYVC_REPO) - used while other authors' checks are reading /repo
 D=$1
-# one writer at a time on /repo's working tree (seed windows of concurrent authors, fix commits)
-exec 9>/tmp/repo_worktree.lock
-flock 9
-P=$(python3 -c "import json;print(json.load(open('$D/meta.json'))['property'])")
-cd /repo
-git diff --quiet || { echo "/repo has local changes"; exit 9; }
-/venv/bin/python /verif/$D/demo.py >/tmp/seed_demo0.log 2>&1; D0=$?
-git apply /verif/$D/patch.diff || { echo "$D: patch does not apply"; exit 8; }
-/venv/bin/python /verif/$D/demo.py >/tmp/seed_demo1.log 2>&1; D1=$?
-cd /verif
-PYVC_NO_EVIDENCE=1 ./check $P > /tmp/seed_check.log 2>&1; RC=$?
-git -C /repo checkout -- .
-V=$(grep -c "^VIOLATION" /tmp/seed_check.log)
-W=$(grep "^VIOLATION" /tmp/seed_check.log | grep -vc "no-failing-input-found")
-echo "$D: demo(no change)=$D0 demo(with change)=$D1 check=$RC violations=$V with_witness=$W :: $(grep '^VIOLATION' /tmp/seed_check.log | head -2 | sed 's/.*obligation=//' | tr '\n' ';' | cut -c1-300)"
+P=${2:-$(python3 -c "import json;print(json.load(open('$D/meta.json'))['property'])")}
+T=$(mktemp -d /tmp/pyvc_seed.XXXXXX)
+if [ -n "$SEED_SCRATCH" ]; then
+  R=$T/repo; mkdir -p $R && cp -r /repo/src $R/src
+  ( cd $R && git init -q . >/dev/null 2>&1 )
+  PYTHONPATH=/repo/src /venv/bin/python /verif/$D/demo.py >$T/demo0.log 2>&1; D0=$?
+  ( cd $R && git apply /verif/$D/patch.diff ) || { echo "$D: patch does not apply"; rm -rf $T; exit 8; }
+  PYTHONPATH=$R/src /venv/bin/python /verif/$D/demo.py >$T/demo1.log 2>&1; D1=$?
+  cd /verif
+  PYVC_REPO=$R PYTHONPATH=$R/src PYVC_NO_EVIDENCE=1 ./check $P > $T/check.log 2>&1; RC=$?
+else
+  # one writer at a time on /repo's working tree (seed windows of concurrent authors, fix commits)
+  exec 9>/tmp/repo_worktree.lock
+  flock 9
+  cd /repo
+  git diff --quiet || { echo "/repo has local changes"; exit 9; }
+  /venv/bin/python /verif/$D/demo.py >$T/demo0.log 2>&1; D0=$?
+  git apply /verif/$D/patch.diff || { echo "$D: patch does not apply"; exit 8; }
+  /venv/bin/python /verif/$D/demo.py >$T/demo1.log 2>&1; D1=$?
+  cd /verif
+  PYVC_NO_EVIDENCE=1 ./check $P > $T/check.log 2>&1; RC=$?
+  git -C /repo checkout -- .
+fi
+V=$(grep -c "^VIOLATION" $T/check.log)
+W=$(grep "^VIOLATION" $T/check.log | grep -vc "no-failing-input-found")
+LINE="$D [$P]: demo(no change)=$D0 demo(with change)=$D1 check=$RC violations=$V with_witness=$W :: $(grep '^VIOLATION' $T/check.log | head -2 | sed 's/.*obligation=//' | tr '\n' ';' | cut -c1-300)"
+echo "$LINE"
+[ "$RC" != 0 ] && [ "$RC" != 1 ] && tail -5 $T/check.log
+rm -rf $T
